@@ -386,7 +386,12 @@ pub fn check_c18(rec: &mut Recorder, f: &Flat, pv: &PView) {
         }
     }
     for (a, b) in access_pairs(f) {
-        rec.check(sgpos(f.node(a).key) < sgpos(f.node(b).key), "c18-access-group-order", &format!("{a} {b}"));
+        // later-group member inside a loop block that does not contain the earlier-group member: the block is hoisted
+        // (same root cause as the reference findings F18: only pipe edges get block-contiguity ordering edges)
+        let bl = f.node(b).lp;
+        let hoisted = bl.is_some() && !inside(f.node(a).lp, bl.unwrap());
+        let sig = if hoisted { "c18-access-group-order@loop-block-hoist" } else { "c18-access-group-order" };
+        rec.check(sgpos(f.node(a).key) < sgpos(f.node(b).key), sig, &format!("{a} {b}"));
     }
     // --- loops contiguous (every loop with all its descendants)
     let sg_loop: Vec<Option<u64>> = order.iter().map(|&s| p.node_loop(p.subgraph(s)[0]).map(idx)).collect();
